@@ -11,7 +11,7 @@ from pynndescent import PyNNDescentTransformer
 from harness import api, oracles
 
 COMBOS = [("euclidean", "dense32"), ("cosine", "dense32"), ("manhattan", "dense64"), ("cosine", "csr"), ("hellinger", "dense32"),
-          ("minkowski", "dense32"), ("jaccard", "dense32"), ("euclidean", "csr"), ("correlation", "dense32")]
+          ("minkowski", "dense32"), ("jaccard", "dense32"), ("euclidean", "csr"), ("correlation", "dense32"), ("dot", "dense32")]
 
 
 def csr_triples(M):
@@ -142,6 +142,7 @@ def run(res, tier, seed, search):
         reps *= 3
     epsilon_case(res, rng)
     unfilled_case(res, rng)
+    check_case(res, rng, "dot", "dense32")          # the normalising metric has its own glue in the constructor: every seed
     start = (seed * nc) % len(COMBOS)
     for i in range(nc):
         metric, kind = COMBOS[(start + i) % len(COMBOS)]
